@@ -34,6 +34,7 @@ enum Pending {
     Wait,
     Notify,
     StartRel,
+    Atom,
     Sleeping,
     Relock,
     Done,
@@ -101,7 +102,7 @@ impl Inner {
                             opts.push(Opt::Run(t))
                         }
                     }
-                    Pending::Start | Pending::Unlock | Pending::Wait => opts.push(Opt::Run(t)),
+                    Pending::Start | Pending::Unlock | Pending::Wait | Pending::Atom => opts.push(Opt::Run(t)),
                     Pending::StartRel => {
                         if self.owned[t] > 0 {
                             opts.push(Opt::Run(t))
@@ -207,8 +208,101 @@ pub mod simsync {
     use super::{ctx, Pending};
     use std::cell::UnsafeCell;
     use std::ops::{Deref, DerefMut};
-    pub use std::sync::atomic;
     pub use std::sync::{Arc, LockResult, PoisonError, TryLockError, TryLockResult, Weak};
+
+    /// `std::sync::atomic` with every operation a scheduling point of its own (always enabled, invisible in the event trace):
+    /// state kept in atomics OUTSIDE the mutex (lock-free fast paths, flags) is interleaved with everything else.
+    pub mod atomic {
+        use super::super::{Pending, CTX};
+        pub use std::sync::atomic::{compiler_fence, fence, AtomicPtr, Ordering};
+
+        fn point() {
+            let c = CTX.with(|c| c.borrow().clone());
+            if let Some((s, me)) = c {
+                let _ = s.yield_op(me, Pending::Atom, false, |_| ());
+            }
+        }
+
+        macro_rules! sim_atomic_int {
+            ($name:ident, $t:ty) => {
+                #[derive(Debug, Default)]
+                pub struct $name(std::sync::atomic::$name);
+                impl $name {
+                    pub const fn new(v: $t) -> Self { $name(std::sync::atomic::$name::new(v)) }
+                    pub fn into_inner(self) -> $t { self.0.into_inner() }
+                    pub fn get_mut(&mut self) -> &mut $t { self.0.get_mut() }
+                    pub fn load(&self, o: Ordering) -> $t { point(); self.0.load(o) }
+                    pub fn store(&self, v: $t, o: Ordering) { point(); self.0.store(v, o) }
+                    pub fn swap(&self, v: $t, o: Ordering) -> $t { point(); self.0.swap(v, o) }
+                    pub fn fetch_add(&self, v: $t, o: Ordering) -> $t { point(); self.0.fetch_add(v, o) }
+                    pub fn fetch_sub(&self, v: $t, o: Ordering) -> $t { point(); self.0.fetch_sub(v, o) }
+                    pub fn fetch_and(&self, v: $t, o: Ordering) -> $t { point(); self.0.fetch_and(v, o) }
+                    pub fn fetch_or(&self, v: $t, o: Ordering) -> $t { point(); self.0.fetch_or(v, o) }
+                    pub fn fetch_xor(&self, v: $t, o: Ordering) -> $t { point(); self.0.fetch_xor(v, o) }
+                    pub fn fetch_max(&self, v: $t, o: Ordering) -> $t { point(); self.0.fetch_max(v, o) }
+                    pub fn fetch_min(&self, v: $t, o: Ordering) -> $t { point(); self.0.fetch_min(v, o) }
+                    pub fn compare_exchange(&self, c: $t, n: $t, s: Ordering, f: Ordering) -> Result<$t, $t> {
+                        point();
+                        self.0.compare_exchange(c, n, s, f)
+                    }
+                    /// never fails spuriously here (a spurious failure is only a retry of the caller's loop)
+                    pub fn compare_exchange_weak(&self, c: $t, n: $t, s: Ordering, f: Ordering) -> Result<$t, $t> {
+                        point();
+                        self.0.compare_exchange(c, n, s, f)
+                    }
+                    pub fn fetch_update<F: FnMut($t) -> Option<$t>>(&self, s: Ordering, f: Ordering, mut g: F) -> Result<$t, $t> {
+                        let mut prev = self.load(f);
+                        while let Some(next) = g(prev) {
+                            match self.compare_exchange_weak(prev, next, s, f) {
+                                x @ Ok(_) => return x,
+                                Err(p) => prev = p,
+                            }
+                        }
+                        Err(prev)
+                    }
+                }
+                impl From<$t> for $name {
+                    fn from(v: $t) -> Self { $name::new(v) }
+                }
+            };
+        }
+        sim_atomic_int!(AtomicIsize, isize);
+        sim_atomic_int!(AtomicUsize, usize);
+        sim_atomic_int!(AtomicI64, i64);
+        sim_atomic_int!(AtomicU64, u64);
+        sim_atomic_int!(AtomicI32, i32);
+        sim_atomic_int!(AtomicU32, u32);
+        sim_atomic_int!(AtomicI16, i16);
+        sim_atomic_int!(AtomicU16, u16);
+        sim_atomic_int!(AtomicI8, i8);
+        sim_atomic_int!(AtomicU8, u8);
+
+        #[derive(Debug, Default)]
+        pub struct AtomicBool(std::sync::atomic::AtomicBool);
+        impl AtomicBool {
+            pub const fn new(v: bool) -> Self { AtomicBool(std::sync::atomic::AtomicBool::new(v)) }
+            pub fn into_inner(self) -> bool { self.0.into_inner() }
+            pub fn get_mut(&mut self) -> &mut bool { self.0.get_mut() }
+            pub fn load(&self, o: Ordering) -> bool { point(); self.0.load(o) }
+            pub fn store(&self, v: bool, o: Ordering) { point(); self.0.store(v, o) }
+            pub fn swap(&self, v: bool, o: Ordering) -> bool { point(); self.0.swap(v, o) }
+            pub fn fetch_and(&self, v: bool, o: Ordering) -> bool { point(); self.0.fetch_and(v, o) }
+            pub fn fetch_or(&self, v: bool, o: Ordering) -> bool { point(); self.0.fetch_or(v, o) }
+            pub fn fetch_xor(&self, v: bool, o: Ordering) -> bool { point(); self.0.fetch_xor(v, o) }
+            pub fn fetch_nand(&self, v: bool, o: Ordering) -> bool { point(); self.0.fetch_nand(v, o) }
+            pub fn compare_exchange(&self, c: bool, n: bool, s: Ordering, f: Ordering) -> Result<bool, bool> {
+                point();
+                self.0.compare_exchange(c, n, s, f)
+            }
+            pub fn compare_exchange_weak(&self, c: bool, n: bool, s: Ordering, f: Ordering) -> Result<bool, bool> {
+                point();
+                self.0.compare_exchange(c, n, s, f)
+            }
+        }
+        impl From<bool> for AtomicBool {
+            fn from(v: bool) -> Self { AtomicBool::new(v) }
+        }
+    }
 
     /// What the monitors may look at: the counter, when the protected state IS a plain integer (as in the
     /// unchanged semaphore.rs); any other state type (a struct, a tuple) is reported as unknown (i64::MIN)
